@@ -59,7 +59,7 @@ func (S) Info() scen.Info {
 			"goroutine scheduling": "stub: seeded one-at-a-time scheduler; yields between operations, between reader chunks, inside visitor and transform callbacks",
 		},
 		QuickUnits: 24000, ThoroughUnits: 3000000, QuickSecs: 40, ThoroughSecs: 1200,
-		ProbeKeys: []string{"probe.reset_producer", "probe.assign_then_reset", "probe.copy_and_extend", "probe.largebytes_interleaved", "probe.two_readers_same_node", "probe.subset_match_bytes", "probe.subset_match_string", "probe.focused_transform", "probe.walk_transform", "probe.abandoned_builder", "probe.typed_node_in_pool", "probe.stream_bytes_node", "probe.callback_interleaved", "probe.loaded_node_in_pool", "probe.load_while_holding_loaded_nodes", "probe.iterator_nodes_retained", "probe.lookup_result_retained"},
+		ProbeKeys: []string{"probe.reset_producer", "probe.assign_then_reset", "probe.copy_and_extend", "probe.largebytes_interleaved", "probe.two_readers_same_node", "probe.subset_match_bytes", "probe.subset_match_string", "probe.focused_transform", "probe.walk_transform", "probe.abandoned_builder", "probe.typed_node_in_pool", "probe.stream_bytes_node", "probe.callback_interleaved", "probe.loaded_node_in_pool", "probe.load_while_holding_loaded_nodes", "probe.iterator_nodes_retained", "probe.lookup_result_retained", "probe.extended_after_assign"},
 		EventsKey: "events",
 	}
 }
@@ -81,15 +81,17 @@ type reader struct {
 }
 
 type world struct {
-	t     *sim.Tape
-	s     *sim.Sim
-	o     *sim.Outcome
-	st    *sim.Stats
-	pool  []*entry
-	lsys  linking.LinkSystem
-	hist  []string
-	share bool
-	cids  []string
+	t       *sim.Tape
+	s       *sim.Sim
+	o       *sim.Outcome
+	st      *sim.Stats
+	pool    []*entry
+	lsys    linking.LinkSystem
+	hist    []string
+	share   bool
+	cids    []string
+	extN    int
+	extKeys []string // keys that were only ever added to extended copies: no other node may know them
 }
 
 type TMap struct {
@@ -176,6 +178,26 @@ func (w *world) checkAll(after string) {
 			if got == nil {
 				e.snap = model.NullV()
 				e.n = datamodel.Null
+			}
+		}
+	}
+}
+
+// checkForeignKeys: a key that was only ever added to an extended copy must not be found in any other map node.
+func (w *world) checkForeignKeys(after string) {
+	for i, e := range w.pool {
+		if e.snap.K != model.Map {
+			continue
+		}
+		for _, k := range w.extKeys {
+			if e.snap.Get(k) != nil {
+				continue
+			}
+			var v datamodel.Node
+			var err error
+			if pan := safe(func() { v, err = e.n.LookupByString(k) }); pan == "" && err == nil && v != nil && !v.IsAbsent() {
+				w.o.Fail("node-changed", e.origin+" node", "pool node #%d (from %s) now finds key %q by lookup after step %q; that key was only ever added to a copy of it", i, e.origin, k, after)
+				return
 			}
 		}
 	}
@@ -282,6 +304,7 @@ func (S) RunTape(t *sim.Tape, st *sim.Stats, keepLog bool) *sim.Outcome {
 				w.hist = append(w.hist, fmt.Sprintf("h%d:%s", h, desc))
 				s.Log.Add(fmt.Sprintf("STEP h%d %s", h, desc))
 				w.checkAll(desc)
+				w.checkForeignKeys(desc)
 			}
 		})
 	}
@@ -603,17 +626,69 @@ func (w *world) step(h int, rd *reader, op, a, b, c int) string {
 	case 6: // whole-node assign into a fresh builder of the node's own prototype, then Reset and rebuild
 		var nb datamodel.NodeBuilder
 		var m datamodel.Node
+		extendVariant := c%2 == 0 && (e.snap.K == model.Map || e.snap.K == model.List) && len(e.snap.Vals) > 0
 		pan := safe(func() {
 			nb = e.n.Prototype().NewBuilder()
 			if err := nb.AssignNode(e.n); err != nil {
+				nb = nil
 				return
 			}
-			m = nb.Build()
+			if !extendVariant {
+				m = nb.Build()
+			}
 		})
-		if pan != "" || m == nil {
+		if pan != "" || nb == nil || (!extendVariant && m == nil) {
 			return fmt.Sprintf("assign-failed(%s#%d)", e.origin, i)
 		}
-		w.add(m, e.snap, "assigned-copy-of-"+e.origin, nil)
+		if !extendVariant {
+			w.add(m, e.snap, "assigned-copy-of-"+e.origin, nil)
+		}
+		if extendVariant {
+			// The builder is NOT built yet: the caller goes on assembling after AssignNode.
+			// Some builders (the reflection-bound ones) let a caller go on after AssignNode and extend
+			// what was assigned; where a builder refuses (generic ones panic: misuse), nothing happens.
+			// Either way the node that was assigned from, and the copy just built, stay as they are.
+			safe(func() {
+				first := w.firstChild(e.n)
+				if first == nil {
+					return
+				}
+				if e.snap.K == model.Map {
+					ma, err := nb.BeginMap(1)
+					if err != nil {
+						return
+					}
+					w.extN++
+					xk := fmt.Sprintf("zz-ext-%d", w.extN)
+					w.extKeys = append(w.extKeys, xk)
+					va, err := ma.AssembleEntry(xk)
+					if err != nil {
+						return
+					}
+					if va.AssignNode(first) != nil {
+						return
+					}
+					if ma.Finish() == nil {
+						w.add(nb.Build(), nil, "extended-after-assign-of-"+e.origin, nil)
+						w.st.Inc("probe.extended_after_assign")
+					}
+				} else {
+					la, err := nb.BeginList(1)
+					if err != nil {
+						return
+					}
+					if la.AssembleValue().AssignNode(first) != nil {
+						return
+					}
+					if la.Finish() == nil {
+						w.add(nb.Build(), nil, "extended-after-assign-of-"+e.origin, nil)
+						w.st.Inc("probe.extended_after_assign")
+					}
+				}
+			})
+			w.share = true
+			return fmt.Sprintf("assign-then-extend(%s#%d)", e.origin, i)
+		}
 		w.s.Yield("reset")
 		safe(func() {
 			nb.Reset()
@@ -867,6 +942,27 @@ func (w *world) step(h int, rd *reader, op, a, b, c int) string {
 		return fmt.Sprintf("subset-match(%s#%d,%d:%d)", e.origin, i, from, from+ln)
 	}
 	return "noop"
+}
+
+// firstChild returns the first value of a map or list node.
+func (w *world) firstChild(n datamodel.Node) datamodel.Node {
+	switch n.Kind() {
+	case datamodel.Kind_Map:
+		if it := n.MapIterator(); it != nil && !it.Done() {
+			_, v, err := it.Next()
+			if err == nil {
+				return v
+			}
+		}
+	case datamodel.Kind_List:
+		if it := n.ListIterator(); it != nil && !it.Done() {
+			_, v, err := it.Next()
+			if err == nil {
+				return v
+			}
+		}
+	}
+	return nil
 }
 
 func countKey(v *model.V, k string) int {
